@@ -153,7 +153,7 @@ func TestC07WindowEnumerated(t *testing.T) {
 func TestC07WindowRandom(t *testing.T) {
 	rec := evid.New(t, "C07", "rapid histories (<=40 frames) mixing boundary values, random 48-bit timestamps and newest+-delta around 1,000,000; model comparison at every step; non-trivial = some frame older than newest but inside the window, on the boundary, or newest < 1,000,000; distinct by hash of the history")
 	rec.Require("inside-window", "on-boundary", "just-outside", "newest-below-window")
-	evid.Check(t, rec, evid.N(6000, 40000), func(t *rapid.T) {
+	evid.Check(t, rec, evid.N(40000, 200000), func(t *rapid.T) {
 		n := rapid.IntRange(1, 40).Draw(t, "n")
 		var hist []uint64
 		var m windowModel
@@ -221,7 +221,7 @@ func TestC07WindowRandom(t *testing.T) {
 func TestC07WriterTimestamps(t *testing.T) {
 	rec := evid.New(t, "C07", "sequences of keyed writes on streamwriter.Writer and frame.Writer: each timestamp lies in the wall-clock bracket of its call in 10us ticks since 2015-01-01 UTC and never decreases along the link; distinct by (writer kind, sequence length, first timestamp)")
 	common, _ := dialects(t)
-	evid.Check(t, rec, evid.N(300, 3000), func(t *rapid.T) {
+	evid.Check(t, rec, evid.N(600, 4000), func(t *rapid.T) {
 		useStream := rapid.Bool().Draw(t, "streamwriter")
 		w := &recWriter{}
 		write, err := keyedWriter(w, common, useStream, c07Key, 5)
